@@ -58,6 +58,7 @@ pub struct World {
     events: Vec<(RawEvent, bool)>,
     raw: Option<RawPeerState>,
     pub step: usize,
+    sched_phase: u8,
 }
 
 fn mk_host(idx: usize, pad: &[u8]) -> Vec<u8> {
@@ -286,6 +287,7 @@ impl World {
             events: case.events.iter().cloned().map(|e| (e, false)).collect(),
             raw: case.raw.clone().map(|policy| RawPeerState { policy, connects_seen: 0, pushes: BTreeMap::new() }),
             step: 0,
+            sched_phase: case.sched_phase,
         }
     }
 
@@ -311,10 +313,10 @@ impl World {
         }
         for (i, (e, fired)) in self.events.iter().enumerate() {
             if !fired {
-                if let Trigger::FromStep(k) = e.when {
-                    if self.step >= k as usize {
-                        v.push(Action::Fire(i));
-                    }
+                match e.when {
+                    Trigger::FromStep(k) if self.step >= k as usize => v.push(Action::Fire(i)),
+                    Trigger::AfterEvent(j) if self.events.get(j as usize).is_some_and(|x| x.1) => v.push(Action::Fire(i)),
+                    _ => {}
                 }
             }
         }
@@ -370,9 +372,11 @@ impl World {
         let st = self.raw.as_mut().unwrap();
         let mut replies: Vec<RawMsg> = vec![];
         match &w {
-            WMsg::Frame(RFrame::Connect { id, .. }) => {
+            WMsg::Frame(RFrame::Connect { id, host, .. }) => {
                 st.connects_seen += 1;
-                if st.connects_seen <= st.policy.reject_first as u32 {
+                let muted = parse_tag(host).is_some_and(|t| st.policy.no_ack_streams.contains(&(t as u32)));
+                if muted {
+                } else if st.connects_seen <= st.policy.reject_first as u32 {
                     replies.push(RawMsg::Reset { id: *id });
                 } else if let Some(rw) = st.policy.ack_connects {
                     replies.push(RawMsg::Ack { id: *id, n: rw });
@@ -440,8 +444,8 @@ impl World {
                 self.log.push(Ev::Fault(format!("blackhole everything sent by {side}")));
                 let mut l = self.link.0.lock().unwrap();
                 let d = &mut l.dir[side];
+                // what is already in flight still arrives; everything sent from now on is lost
                 d.blackhole = true;
-                d.inflight.clear();
                 if let Some(w) = d.send_waker.take() {
                     w.wake();
                 }
@@ -476,6 +480,19 @@ impl World {
     /// Run: the schedule bytes pick among enabled actions; then a fair sweep to quiescence.
     pub fn run(mut self, schedule: &[u8]) -> RunResult {
         let mut scheduled = 0;
+        // optional fair setup phase: sweep until the requested number of quiescence-triggered events has fired
+        let phase = self.sched_phase as usize;
+        while phase > 0 && self.step < STEP_BOUND {
+            let fired_q = self.events.iter().filter(|(e, f)| *f && matches!(e.when, Trigger::Quiescent)).count();
+            if fired_q >= phase {
+                break;
+            }
+            let en = self.enabled(true);
+            if en.is_empty() {
+                break;
+            }
+            self.sweep(&en);
+        }
         for b in schedule {
             let en = self.enabled(false);
             if en.is_empty() {
@@ -492,7 +509,23 @@ impl World {
                 quiescent = true;
                 break;
             }
-            // fair sweep: every action enabled now is taken once, deliveries first
+            self.sweep(&en);
+        }
+        let mut task_exit = [None, None];
+        let events = self.log.snapshot();
+        for s in &events {
+            if let Ev::TaskExit { side, result } = &s.ev {
+                task_exit[*side] = Some(result.clone());
+            }
+        }
+        let tasks = self.exec.tasks.iter().map(|t| (t.name.clone(), t.kind, t.done, t.cancelled)).collect();
+        RunResult { events, tasks, task_exit, steps: self.step, quiescent, scheduled_steps: scheduled }
+        // `self` (streams kept alive in cells, multiplexors) is dropped here, after the history was taken
+    }
+
+    /// fair sweep: every action enabled now is taken once, deliveries first
+    fn sweep(&mut self, en: &[Action]) {
+        {
             let mut acts: Vec<Action> = en.iter().copied().filter(|a| matches!(a, Action::Deliver(_))).collect();
             acts.extend(en.iter().copied().filter(|a| matches!(a, Action::Fire(_))));
             acts.extend(en.iter().copied().filter(|a| matches!(a, Action::Poll(_))));
@@ -518,16 +551,6 @@ impl World {
                 }
             }
         }
-        let mut task_exit = [None, None];
-        let events = self.log.snapshot();
-        for s in &events {
-            if let Ev::TaskExit { side, result } = &s.ev {
-                task_exit[*side] = Some(result.clone());
-            }
-        }
-        let tasks = self.exec.tasks.iter().map(|t| (t.name.clone(), t.kind, t.done, t.cancelled)).collect();
-        RunResult { events, tasks, task_exit, steps: self.step, quiescent, scheduled_steps: scheduled }
-        // `self` (streams kept alive in cells, multiplexors) is dropped here, after the history was taken
     }
 }
 
